@@ -13,6 +13,12 @@ Definition R_floor (x : R) : Z := (up x - 1)%Z.
 Definition R_round (x : R) : Z :=
   if Rle_dec 0 x then R_floor (x + / 2) else (- R_floor (- x + / 2))%Z.
 
+(** [powf]: x^y by repeated multiplication for an integer exponent, exp (y ln x) otherwise *)
+Definition R_pow (x y : R) : R :=
+  if Req_EM_T y (IZR (R_floor y))
+  then (if Rle_dec 0 y then x ^ Z.to_nat (R_floor y) else / x ^ Z.to_nat (- R_floor y))
+  else Rpower x y.
+
 Definition Rops : ops R :=
   {| f0 := 0; f1 := 1; f2 := 2; fhalf := / 2; fisq2 := / sqrt 2; fpi := PI;
      fadd := Rplus; fsub := Rminus; fmul := Rmult; fdiv := Rdiv; fneg := Ropp;
@@ -20,4 +26,8 @@ Definition Rops : ops R :=
      fleb := R_leb; fltb := R_ltb; feqb := R_eqb; fapprox := R_eqb;
      fofN := fun n => IZR (Z.of_N n);
      fround := R_round;
-     ffinite := fun _ => true |}.
+     ffinite := fun _ => true;
+     fexp := exp; fln := ln; fpow := R_pow;
+     ffloor := fun x => IZR (R_floor x);
+     fceil := fun x => IZR (- R_floor (- x));
+     froundf := fun x => IZR (R_round x) |}.
